@@ -88,9 +88,26 @@ class Pool:
             for x in r:
                 self.note_result(x, depth + 1)
 
+    def read_properties(self):
+        """the caller looks at every public property of the value objects it built (and will edit what it is handed)"""
+        for o in list(self.objects.values()):
+            for name, attr in list(vars(type(o)).items()):
+                if name.startswith("_") or not isinstance(attr, property):
+                    continue
+                try:
+                    self.note_result(getattr(o, name))
+                except Exception:
+                    pass
+
     def scribble(self):
         """the caller edits what the first call handed it"""
+        self.read_properties()
         mine = [e[0] for es in self.arrays.values() for e in es]
+        # ... nor what is the object's own *public* array attribute (`line.reference_point`, `box.origin`): editing that is
+        # editing the object, with or without a property that hands out the same array
+        for o in self.objects.values():
+            mine += [v for k, v in (vars(o).items() if hasattr(o, "__dict__") else []) if not k.startswith("_")
+                     and isinstance(v, _np.ndarray)]
         for r in self.results:
             try:
                 if not r.flags.writeable or r.size == 0 or r.dtype == object:
@@ -204,6 +221,22 @@ def _recording(f):
     return w
 
 
+def _recording_method(f):
+    def w(*a, **k):
+        r = f(*a, **k)
+        if _pool is not None and _pool.phase == 0:
+            caller = sys._getframe(1).f_code.co_filename
+            if "harness" in caller and "pwlib" not in caller:
+                _pool.note_result(r)
+        return r
+    for attr in ("__name__", "__qualname__", "__doc__", "__module__"):
+        try:
+            setattr(w, attr, getattr(f, attr))
+        except Exception:
+            pass
+    return w
+
+
 def _argkey(x):
     if isinstance(x, _np.ndarray):
         return ("nd", x.dtype.str, x.shape, x.tobytes())
@@ -279,6 +312,7 @@ class scope:
         self.classes = tuple(classes) if intmode is None else VALUE_CLASSES
         self.intmode = intmode
         self.saved = []
+        self.class_saved = []
 
     def __enter__(self):
         global _pool
@@ -312,15 +346,37 @@ class scope:
         for name in self.classes:
             c = polliwog.__dict__.get(name)
             if isinstance(c, type):
+                if self.intmode is None:
+                    self._record_methods(c)
                 self.saved.append((polliwog.__dict__, name, c))
                 polliwog.__dict__[name] = _pooled_class(c)
         return _pool
+
+    def _record_methods(self, cls):
+        """what the adapter (the caller) is handed by a public method or property of a value object is the caller's too:
+        recorded during the first call of a pair and edited afterwards like the results of the public functions.  Calls made
+        by the library itself are not recorded."""
+        import types
+        for name, attr in list(vars(cls).items()):
+            if name.startswith("_"):
+                continue
+            if isinstance(attr, property) and attr.fget is not None:
+                new = property(_recording_method(attr.fget), attr.fset, attr.fdel, attr.__doc__)
+            elif isinstance(attr, types.FunctionType):
+                new = _recording_method(attr)
+            else:
+                continue
+            self.class_saved.append((cls, name, attr))
+            setattr(cls, name, new)
 
     def __exit__(self, *exc):
         global _pool
         for d, name, val in self.saved:
             d[name] = val
         self.saved = []
+        for cls, name, attr in self.class_saved:
+            setattr(cls, name, attr)
+        self.class_saved = []
         _pool = None
         return False
 
